@@ -21,9 +21,38 @@ CLAIMED = {
     },
 }
 
+CLAIMED["C02"] = {
+    "text": "Theorems: the k-th row of a plain touch is the start row transformed by the first k changes of the notation "
+            "read cyclically from the start index (all k, all start indices incl. negative, any start row); Plain Hunt "
+            "equals the notation x.1n / n.1 for every n and length; Grandsire/Stedman facts for every supported stage by "
+            "kernel computation. Model of convert_pn/valid_pn/generators compared with the implementation on grammar-"
+            "directed, exhaustive-short and malformed strings every run; rows also compared with an independent "
+            "reference interpreter.",
+    "design_ref": "DESIGN.md section 3, C02", "note": TB + " The grammar->changes theorem for convert_pn is not yet "
+            "proved in Coq (convert_pn is tied by correspondence + the token-level oracle only).",
+    "technique": "Coq proof (induction over rows; vm_compute over the finite set of stages) + correspondence",
+}
+CLAIMED["C04"] = {
+    "text": "Theorem pn_step_spec: the complete decision rule of one generator step (call fires exactly where defined, "
+            "Bob before Single, call in progress supplies exactly its remaining changes, otherwise the method's change "
+            "and nothing else changes) for every method, call dictionary, start index and state; corollaries; call "
+            "position (pos-1) mod L. Model compared with the implementation on call-heavy histories; rows also "
+            "compared with an independent forward-searching reference of the call rule.",
+    "design_ref": "DESIGN.md section 3, C04", "note": TB,
+    "technique": "Coq proof by case analysis of the step function + correspondence",
+}
+CLAIMED["C05"] = {
+    "text": "Theorem: after ANY history of operations, reset returns exactly the generator the constructor built, so the "
+            "second touch's rows equal a fresh generator's (all generator kinds); C05_refuted_pre_fix exhibits the "
+            "violation of the tree before the fix commit. Model compared with the implementation on histories with a "
+            "reset at every row offset; oracle: a freshly constructed generator.",
+    "design_ref": "DESIGN.md section 3, C05", "note": TB,
+    "technique": "Coq proof (structural: reset state = constructor state) + correspondence",
+}
+
 _NYI = "check not built yet in this session; planned as a Coq proof (see DESIGN.md section 3)"
 NOT_APPLICABLE = {p: _NYI for p in
-                  ["C02", "C04", "C05", "C06", "C07", "C08", "C09", "C10", "C11", "C12", "C13", "C14", "C15", "C16",
+                  ["C06", "C07", "C08", "C09", "C10", "C11", "C12", "C13", "C14", "C15", "C16",
                    "C17", "C18", "C19", "C20"]}
 
 NOTES = ("All checks share harness/check.py. Exit 0 = property held on everything explored; exit 1 + VIOLATION line "
